@@ -309,34 +309,44 @@ Definition update_holdout (c : cfg) (st : state) (z : nat) (u : updc) : res stat
       else Err 4
   end.
 
+(* Iterator::next, step 1 and 2: remove the hold-out from the counts, build the PSSM
+   from the rest (cm = the counts without z), draw the new start, put the hold-out back *)
+Definition resample (c : cfg) (st : state) (z : nat) (u : updc) : res ((matrix * N) * state) :=
+  st1 <- exclude_sequence c st z ;;
+  cm <- prepare_pssm st1 ;;
+  st2 <- update_holdout c st1 z u ;;
+  st3 <- include_sequence c st2 z ;;
+  Ok (cm, st3).
+
+(* Iterator::next, the Zoops test of a sequence that was not active: keep it unless the
+   information content decreased ([accept] stands for the f32 comparison), patience *)
+Definition zoops_test (c : cfg) (st3 : state) (z : nat) (accept : bool) : res state :=
+  _ <- prepare_pssm st3 ;;
+  st' <- (if accept
+          then Ok (mkState (st_active st3) (st_count st3) (st_starts st3) (st_motif st3)
+                           (st_bg st3) (st_step st3) (st_step st3) (st_conv st3))
+          else exclude_sequence c st3 z) ;;
+  d <- sub_usize (st_step st') (st_last st') ;;
+  Ok (if cPatience c <? d
+      then mkState (st_active st') (st_count st') (st_starts st') (st_motif st')
+                   (st_bg st') (st_step st') (st_last st') true
+      else st').
+
 (* Iterator::next *)
 Definition next (c : cfg) (st : state) (ch : choice) : res (state * option iteration) :=
   if st_conv st then Ok (st, None)
   else
     z <- select_holdout c st (ch_z ch) ;;
     active <- bv_test (st_active st) z ;;
-    st1 <- exclude_sequence c st z ;;
-    cm <- prepare_pssm st1 ;;
-    st2 <- update_holdout c st1 z (ch_upd ch) ;;
-    st3 <- include_sequence c st2 z ;;
+    r <- resample c st z (ch_upd ch) ;;
     st4 <- (match cMode c, active with
-            | Zoops, false =>
-                _ <- prepare_pssm st3 ;;
-                st' <- (if ch_accept ch
-                        then Ok (mkState (st_active st3) (st_count st3) (st_starts st3) (st_motif st3)
-                                         (st_bg st3) (st_step st3) (st_step st3) (st_conv st3))
-                        else exclude_sequence c st3 z) ;;
-                d <- sub_usize (st_step st') (st_last st') ;;
-                Ok (if cPatience c <? d
-                    then mkState (st_active st') (st_count st') (st_starts st') (st_motif st')
-                                 (st_bg st') (st_step st') (st_last st') true
-                    else st')
-            | _, _ => Ok st3
+            | Zoops, false => zoops_test c (snd r) z (ch_accept ch)
+            | _, _ => Ok (snd r)
             end) ;;
     if st_step st4 + 1 <=? usize_max then
       Ok (mkState (st_active st4) (st_count st4) (st_starts st4) (st_motif st4) (st_bg st4)
                   (st_step st4 + 1) (st_last st4) (st_conv st4),
-          Some (mkIter (fst cm) (snd cm) z (st_step st4)))
+          Some (mkIter (fst (fst r)) (snd (fst r)) z (st_step st4)))
     else Panic 9.
 
 (* the trace of a run: one entry per call of next() *)
